@@ -576,3 +576,17 @@ package core
 //@   opt nopanic=off
 //@   invariant "range keys" in_key_order [C07]: forall i int :: 0 < i && i < len(keys) ==> keys[i-1] <= keys[i]
 //@   ensures keys_sorted [C07]: forall i int :: 0 < i && i < len(keys) ==> keys[i-1] <= keys[i]
+
+// Parent/child relations of labels and targets: functions of the value asked.
+//@ assume func (BuildTarget).HasParent
+//@   pure
+//@ assume func (BuildLabel).Parent
+//@   pure
+//@ assume func (BuildTarget).Parent
+//@   pure
+
+// Accessors used by the change-detection contracts (C24).
+//@ assume func (BuildTarget).HasAbsoluteSource
+//@   pure
+//@ assume func (BuildGraph).Package
+//@   pure
